@@ -88,11 +88,23 @@ theorem UInv_rebuild (us : List UIdx) (rows : List Row) : UInv (uRebuildAll us r
   obtain ⟨u0, _, rfl⟩ := hm
   exact UOk_build _ _
 
-theorem snap_logIns (t : Option Txn) (r : Row) (t' : Txn) (h : logIns t r = some t') :
+theorem snap_logAdd (t : Option Txn) (cs : List Change) (t' : Txn) (h : logAdd t cs = some t') :
     ∃ t0, t = some t0 ∧ t'.snapRows = t0.snapRows ∧ t'.snapH = t0.snapH := by
   cases t with
-  | none => simp [logIns] at h
-  | some t0 => simp [logIns] at h; subst h; exact ⟨t0, rfl, rfl, rfl⟩
+  | none => simp [logAdd] at h
+  | some t0 => simp [logAdd] at h; subst h; exact ⟨t0, rfl, rfl, rfl⟩
+
+theorem snap_logIns (t : Option Txn) (r : Row) (t' : Txn) (h : logIns t r = some t') :
+    ∃ t0, t = some t0 ∧ t'.snapRows = t0.snapRows ∧ t'.snapH = t0.snapH :=
+  snap_logAdd t _ t' h
+
+/-- recording changes leaves the snapshot part of the invariant alone -/
+theorem snapInv_logAdd (t : Option Txn) (cs : List Change)
+    (ht : ∀ t0, t = some t0 → HInv t0.snapH t0.snapRows) :
+    ∀ t', logAdd t cs = some t' → HInv t'.snapH t'.snapRows := by
+  intro t' h
+  obtain ⟨t0, h0, h1, h2⟩ := snap_logAdd t cs t' h
+  rw [h1, h2]; exact ht t0 h0
 
 theorem inv_insert1 (s : TState) (r : Row) (h : IndexInv s) : IndexInv (insert1 s r) := by
   obtain ⟨hh, hu, ht⟩ := h
@@ -220,16 +232,33 @@ def OpOk (s : TState) : Op → Prop
       (∀ k, hKey h.cols h.skipNull new = some k → NoOther (hKey h.cols h.skipNull) s.rows i k)
   | _ => True
 
-theorem undoAll_inv (log : List Row) : ∀ (hs : List HIdx) (rows : List Row), HInv hs rows →
+theorem HInv_putBack (hs : List HIdx) (rows : List Row) (r : Row) (h : HInv hs rows) :
+    HInv (putBack hs rows r).2 (putBack hs rows r).1 := by
+  intro h1 hm
+  simp only [putBack, List.mem_map] at hm
+  obtain ⟨h0, hm0, rfl⟩ := hm
+  exact HOk_push _ _ _ _ _ (h h0 hm0)
+
+theorem undoAll_inv (log : List Change) : ∀ (hs : List HIdx) (rows : List Row), HInv hs rows →
     HInv (undoAll hs rows log).2.1 (undoAll hs rows log).1 := by
   induction log with
   | nil => intro hs rows h; exact h
-  | cons r rest ih =>
+  | cons c rest ih =>
     intro hs rows h
-    simp only [undoAll]
-    split
-    · exact ih _ _ (HInv_rebuild _ _)
-    · exact h
+    cases c with
+    | ins r =>
+      simp only [undoAll]
+      split
+      · exact ih _ _ (HInv_rebuild _ _)
+      · exact h
+    | del r =>
+      simp only [undoAll]
+      exact ih _ _ (HInv_putBack _ _ _ h)
+    | upd old new =>
+      simp only [undoAll]
+      split
+      · exact ih _ _ (HInv_putBack _ _ _ (HInv_rebuild _ _))
+      · exact h
 
 theorem undoAll_nil (hs : List HIdx) (rows : List Row) : undoAll hs rows [] = (rows, hs, true) := rfl
 
@@ -247,7 +276,7 @@ theorem C15_step_preserves (s : TState) (op : Op) (h : IndexInv s) (hop : OpOk s
     | some p =>
       obtain ⟨rows', hs'⟩ := p
       simp only
-      refine ⟨(updRows_inv ups _ _ hh hok _ _ he).1, ?_, ht⟩
+      refine ⟨(updRows_inv ups _ _ hh hok _ _ he).1, ?_, snapInv_logAdd _ _ ht⟩
       exact updUser_inv ups _ _ _ _ hu hnd (fun _ _ => rfl) _ _ he
   | upsert i new =>
     simp only [step]
@@ -255,7 +284,7 @@ theorem C15_step_preserves (s : TState) (op : Op) (h : IndexInv s) (hop : OpOk s
     | none => exact ⟨hh, hu, ht⟩
     | some old =>
       simp only
-      refine ⟨?_, ?_, ht⟩
+      refine ⟨?_, ?_, snapInv_logAdd _ _ ht⟩
       · intro h1 hm
         simp only [List.mem_map] at hm
         obtain ⟨h0, hm0, rfl⟩ := hm
@@ -265,9 +294,9 @@ theorem C15_step_preserves (s : TState) (op : Op) (h : IndexInv s) (hop : OpOk s
         simp only [List.mem_map] at hm
         obtain ⟨u0, hm0, rfl⟩ := hm
         exact UOk_patch _ _ _ _ _ _ (hu u0 hm0) hold
-  | delete ps => exact ⟨HInv_rebuild _ _, UInv_rebuild _ _, ht⟩
+  | delete ps => exact ⟨HInv_rebuild _ _, UInv_rebuild _ _, snapInv_logAdd _ _ ht⟩
   | truncate =>
-    refine ⟨?_, UInv_rebuild _ _, ht⟩
+    refine ⟨?_, UInv_rebuild _ _, snapInv_logAdd _ _ ht⟩
     intro h1 hm
     simp only [step, List.mem_map] at hm
     obtain ⟨h0, _, rfl⟩ := hm
@@ -275,7 +304,7 @@ theorem C15_step_preserves (s : TState) (op : Op) (h : IndexInv s) (hop : OpOk s
   | replace r =>
     simp only [step]
     apply inv_insert1
-    refine ⟨HInv_rebuild _ _, ?_, ht⟩
+    refine ⟨HInv_rebuild _ _, ?_, snapInv_logAdd _ _ ht⟩
     simp only
     split
     · exact hu
